@@ -228,7 +228,9 @@ def cases(tier):
                 yield {"check": "antitarget-contigs", "t": t1, "tlayout": tl}
     # names whose *length* disagrees with the canonical-name rule: a short non-canonical one (chrM) and a canonical
     # one longer than every targeted name (chr10), with a canonical and a non-canonical contig both targeted
-    for textra in ([("chrM", 1, 2)], [("chrUn_x", 1, 2)], [("chrM", 1, 2), ("chr2", 2, 4)]):
+    # ... and chr2 before chr10 (genomic order differs from the lexicographic one) with different last-target ends,
+    # which matters for the guessed extents when no access table is given
+    for textra in ([("chrM", 1, 2)], [("chrUn_x", 1, 2)], [("chrM", 1, 2), ("chr2", 2, 4)], [("chr2", 2, 4), ("chr10", 1, 9)]):
         yield {"check": "antitarget-contigs", "t": ((3, 5),), "tlayout": "single", "textra": textra, "extras": NAMELEN_EXTRAS, "a1": [((-2, 12),)]}
     if t:
         dists = list(range(900, 2701))
